@@ -84,7 +84,7 @@ def run(ck):
         sites = prog.call_sites(w)
         ck.require(sites, "no caller of %s" % w)
         for e in sites:
-            ck.ob("C06-R1", "caller-of:%s" % w.replace(T, ""), prog.owner(e.func).base == T + "asyncWriteImpl", e.loc, e.func, "called from %s" % prog.owner(e.func).base)
+            ck.ob("C06-R1", "caller-of:%s" % w.replace(T, ""), lib.only_reached_from(prog, e.func, {T + "asyncWriteImpl"}), e.loc, e.func, "called from %s" % prog.owner(e.func).base)
     # asyncWrite only enqueues
     aw = prog.find(T + "asyncWrite", 1)
     for f in aw:
@@ -146,7 +146,7 @@ def run(ck):
         for e in f.events():
             if e["k"] == "member" and strip_tmpl(e.get("f") or "") == T + "toWrite":
                 nacc += 1
-                ok = lib.holds(ls.get((e.block, e.idx)), LOCK, "this")
+                ok = lib.holds(ls.get((e.block, e.idx)), LOCK, "this") or lib.caller_holds(prog, f, LOCK, "this")
                 ck.ob("C06-R2", "toWrite@%s" % f.base.replace(T, ""), ok, e.loc, f, "under toWriteLock" if ok else "access to toWrite without toWriteLock")
             elif e["k"] == "use" and (e.get("v"), e.get("vd")) in alias:
                 ok = lib.holds(ls.get((e.block, e.idx)), LOCK, "this")
@@ -224,6 +224,11 @@ def run(ck):
             for d in f.events("decl"):
                 if d.get("var") and lid.replace("lambda@", "") in (d.get("type") or ""):
                     wrappers[lid] = d["var"]
+    # ... and private members of the transport, introduced after the rules were written, that wrap them
+    for c_ in f.events("call"):
+        for g_ in prog.resolve_call(c_):
+            if prog.expandable(f, c_, g_) and not g_.is_lambda and summ.may(g_, is_owner_call, "owner-write"):
+                wrappers[c_.get("callee")] = g_.base.rsplit("::", 1)[1]
     wnames = [w.rsplit("::", 1)[1] for w in WRITE_OWNERS] + list(wrappers.values())
     wcallees = set(WRITE_OWNERS) | set(wrappers)
     bwv = {a["lhs"].get("v") for a in f.events("assign") if a.get("op") == "=" and any(re.search(r"\b%s\(" % re.escape(w), a["rhs"].get("t") or "") for w in wnames)}
@@ -251,7 +256,7 @@ def run(ck):
         dcall = [c for c in f.calls(lambda c: c.get("callee") == T + "BufferHolder::detach")]
         inline = [c for c in dcall if c.block == e.block and c.idx < e.idx and (c.get("t") or "") in (e.get("t") or "")]
         if det:
-            ok = bool(dcall) and (dcall[0]["args"][0].get("v") == TW) and bool(re.search(r"\b%s\b" % re.escape(det[0]["var"]), e.get("t") or "")) and cfg.ev_dominates(dom, det[0], e)
+            ok = bool(dcall) and (dcall[0]["args"][0].get("v") == TW) and bool(re.search(r"\b%s\b" % re.escape(det[0]["var"].split("@")[0]), e.get("t") or "")) and cfg.ev_dominates(dom, det[0], e)
         else:
             ok = bool(inline) and inline[0]["args"][0].get("v") == TW
         ck.ob("C06-R3", "asyncWriteImpl/requeue-carries-tail", ok, e.loc, f, "push_front(WriteEntry(move(deferred), %s = buffer.detach(totalWritten), flags))" % (det[0]["var"] if det else "buffer.detach(..)"))
